@@ -415,7 +415,7 @@ def run_case(rec: Recorder, tid: int, src: str, pat_id: str, tmpl_src: str, cat:
 
     def cb(matched):
         cur['n'] += 1
-        if cur['n'] > EVENT_CAP:
+        if cur['n'] > max(EVENT_CAP, 6 * len(S) + 40):
             cur['diverged'] = True
             raise Runaway()
         pre = rec.state(f)
